@@ -150,6 +150,11 @@ _GEN = {
     'cheby': _spec([('i', 'flags')], rep=[('n', None)]),
     'copy': _spec([('i', 'index'), ('i', 'buf'), ('i', 'index'),
                    ('i', 'count-1')]),
+    # fill commands defined by the standard plug-ins (BufGen: new peak value;
+    # PartConv help file: source buffer number, fft size)
+    'normalize': _spec(opt=[('n', None)]),
+    'wnormalize': _spec(opt=[('n', None)]),
+    'PreparePartConv': _spec([('i', 'buf'), ('i', 'count')]),
 }
 
 
@@ -457,6 +462,11 @@ def selftest():
     m = ok('/b_gen', [i(1), s('copy'), i(0), i(0), i(0), i(-1)])
     assert [(x['role'], x['id']) for x in m] == [('buf', 1), ('buf', 0)]
     ok('/b_gen', [i(1), s('sine1'), i(7), f(1.0), f(0.5)])
+    ok('/b_gen', [i(1), s('normalize'), f(0.5)])
+    ok('/b_gen', [i(1), s('wnormalize')])
+    m = ok('/b_gen', [i(1), s('PreparePartConv'), i(2), i(2048)])
+    assert [(x['role'], x['id']) for x in m] == [('buf', 1), ('buf', 2)]
+    bad('/b_gen', [i(1), s('PreparePartConv'), f(2.0), i(2048)])
     bad('/b_gen', [i(1), i(7)])
     m = ok('/c_set', [i(0), f(0.5), i(1), i(2)])
     assert [(x['role'], x['id'], x['n']) for x in m] == [('cbus', 0, 1),
